@@ -6,7 +6,7 @@ from .. import build, fonts, synthwork
 META = dict(
     technique='metamorphic monitor: font = NULL vs unhinted gr_font of P ppm for the same arguments; structural dumps equal, every origin/advance compared with s x design value under a derived float32 rounding tolerance; ASan+UBSan build',
     level='exploration: for shipped fonts (incl. collision and RTL fonts) and synthesised fonts with shifts/attachments, seeded (text, dir, features, ppm in {0.5..4096} and log-uniform [1e-3,4096]) pairs must have identical '
-          'glyphs/attachments/associations and positions equal to (P/upem) x design-unit value within tol = 2 k eps s max(M, upem), k = 2 n_slots + 4; evidence prints the worst observed error/tolerance ratio',
+          'glyphs/attachments/associations and positions equal to (P/upem) x design-unit value within tol = 2 k eps s max(M, upem), k = 2 n_slots + 4; evidence prints the worst observed error/tolerance ratio; a third of the pairs are then cut at a cluster boundary and every line justified to the same width in both runs (gr_seg_justify with font NULL / the sized font) and compared again with a coarse tolerance (2 design units per slot: justify() truncates shares to whole steps)',
     note='tolerance is magnitude-relative (collision/kerning arithmetic cancels large coordinates); a missing or doubled scale factor gives errors >= 1000 x tol except at ppm = upem; hinted fonts are excluded by the statement; the H5 hook records every comparison Slot::finalise decides on scaled positions in both runs, so a divergence caused by such a decision flipping on operands within rounding (known finding KF-C15-2) is keyed apart from any other divergence',
 )
 
@@ -18,6 +18,8 @@ def run(chk):
     for fpath, tpath, _ in fonts.shipped():
         parts.append(dict(harness='h_diff', flavour='asan', args=['--part', 'scale', '--font', fpath, '--texts', tpath], cases=1500 if quick else 20000, nshards=2 if quick else 8, nsamples=1))
     lst, paths = synthwork.make_fonts('c06', chk.seed, 40 if quick else 600)
+    lst2, paths2 = synthwork.make_fonts('just', chk.seed, 24 if quick else 300)       # justification levels, steps, weights, line-end contextuals
+    paths = paths + paths2
     for p in paths:
         parts.append(dict(harness='h_diff', flavour='asan', args=['--part', 'scale', '--font', p], cases=150 if quick else 600, nshards=1, nsamples=0))
     # recorded witnesses of the open known findings, replayed as they stand (fixed text, direction, size)
@@ -31,6 +33,9 @@ def run(chk):
     cov['rule'] = ('one case = (font, text, encoding, dir, features, ppm) shaped with font=NULL and with gr_make_font(ppm); non-trivial: >= 2 slots, |s-1| > 1e-3 and a non-zero advance; distinct by per-case seed')
     cov['slot_comparisons'] = int(t.get('slot_comparisons', 0))
     cov['worst_error_over_tolerance'] = round(t.get('max_error_over_tolerance_x1e6', 0) / 1e6, 6)
+    cov['justified_lines_compared'] = int(t.get('justified_lines_compared', 0))
+    cov['justified_lines_whose_width_changed'] = int(t.get('justified_lines_whose_width_changed', 0))
+    cov['worst_justified_error_over_coarse_tolerance'] = round(t.get('max_justified_error_over_tolerance_x1e6', 0) / 1e6, 6)
     cov['finalise_decisions_compared'] = int(t.get('finalise_decisions_compared', 0))
     cov['pairs_with_a_flipped_finalise_decision'] = int(t.get('pairs_with_a_flipped_finalise_decision', 0))
     cov['shipped_fonts'] = len(fonts.shipped())
